@@ -63,7 +63,7 @@ def replay_setpos_witness(clause, lines, kind="replay_file_name"):
     if clause != "confirmation_not_beyond_received" or kind != "replay_file_name":
         return False
     names = _file_names(lines)
-    peers = {"A": 0, "B": 1, "C": 2}
+    peers = {"A": 0, "B": 1, "C": 2, "D": 3, "E": 4, "F": 5}
     found = False
     prev_pos = None
     for l in lines:
@@ -72,9 +72,9 @@ def replay_setpos_witness(clause, lines, kind="replay_file_name"):
         if not w or not o:
             continue
         pos = [int(x) for x in o[-1].split(",")] if "," in o[-1] else None
-        if w[0] == "timer" and len(o) >= 5:
-            before = prev_pos or [0] * 6
-            for p, out in enumerate(o[1:4]):
+        if w[0] == "timer" and len(o) >= 8:
+            before = prev_pos or [0] * 12
+            for p, out in enumerate(o[1:7]):
                 if any(it.startswith("L") and int(it[1:]) > before[2 * p + 1] for it in out.split(",")):
                     return False
         if w[0] in ("replay", "probe") and len(o) >= 3 and pos:
@@ -123,7 +123,7 @@ class C12(StdCheck):
     prop = "C12"
     required_theorems = ["replay_exact_partial", "replay_exact_counterexample", "replay_exact", "confirmed_not_replayed",
                          "receiver_ignores_old", "position_monotone", "cleanup_safe", "truncation_tolerant",
-                         "damage_tolerant", "survives_restart", "relay_persists", "rel_init", "step_meets_spec",
+                         "damage_tolerant", "survives_restart", "relay_persists", "rel_init", "step_meets_spec", "model_positions_justified",
                          "model_trace_meets_spec_partial", "timer_confirmation_sound", "confirmation_counterexample",
                          "premature_confirmation_counterexample"]
     technique = ("Lean 4 proof about an executable transcription of PersistMessage/RotateLogFile/ReplayLog/the clean-up timer and "
@@ -151,15 +151,18 @@ class C12(StdCheck):
         "modelled, not verified: JSON encoding of a record (oracle bytes + table decode), Zone::CanAccessObject (oracle bits), "
         "Boost.Asio strands delivering posted sends in order, the file system (rename/unlink/append as the model says)",
         "not modelled: events relayed while the endpoint is connected but still syncing (Q-C12b, outside the statement), origin-based "
-        "skipping in RelayMessageOne (events are locally generated), child zones with several endpoints (routing is C11), "
+        "skipping in RelayMessageOne (events are locally generated; the position advance of skipped endpoints IS modelled, incl. two-endpoint "
+        "child and parent zones whose std::set iteration order is an oracle input), "
         "concurrent PersistMessage during an unlocked replay pass",
     ]
     assumptions = ["timestamps are non-negative µs integers, exact in binary64", "one endpoint per non-local zone",
                    "the virtual clock advances by >= 1 µs per relayed event except in the named equal-stamp case"]
-    rule = ("two real nodes (X replays first, Y handles X's queue before / after its own ReplayLog); 1 named equal-timestamp case; 1 named regression case with a `null` record in the first of two files (F-C12b, fixed); 3 named receiver cases (messages with ts equal to the recorded position and 1 µs around it, also across crash and stop restarts); 2 (thorough 5) three-file logs cut at EVERY byte offset of every file followed by ReplayLog; "
+    rule = ("12 named sibling schedules (both endpoints of the two-endpoint child / parent zone away, events persisted, one returns and carries further "
+            "events, then the other returns; with/without rotation, master question, second disconnect); 4 (thorough 7) cases with records of 1 MiB-1, "
+            "1 MiB, 1 MiB+1, 2 MiB (thorough also 5 MiB, 3 MB) followed by later events in the same and the next file; two real nodes (X replays first, Y handles X's queue before / after its own ReplayLog); 1 named equal-timestamp case; 1 named regression case with a `null` record in the first of two files (F-C12b, fixed); 3 named receiver cases (messages with ts equal to the recorded position and 1 µs around it, also across crash and stop restarts); 2 (thorough 5) three-file logs cut at EVERY byte offset of every file followed by ReplayLog; "
             "1200 (thorough 6000) seeded random cases of 8..38 (..58) operations over relay (6 kinds of security object) / connect / "
             "disconnect / ReplayLog / rotate / timer / acknowledge / receive (two thirds of them at the recorded remote position -1/0/+1 µs) / stop / crash (with byte loss) / start / object removal / "
-            "counter preset 49998..50000 / permanent and temporary damage with random bytes, 3 peers with log_duration from "
+            "counter preset 49998..50000 / permanent and temporary damage with random bytes, 6 peers (A in the local zone, B and D in a two-endpoint child zone, C in a grandchild zone, E and F in a two-endpoint parent zone) with log_duration from "
             "{-1,0,5,60,3600,86400}, local node master or not. evaluations = "
             "operations compared; a case is non-trivial when a replay delivered at least one event (counted by the Lean driver)")
 
@@ -286,10 +289,11 @@ class C12(StdCheck):
                     from_replay_setpos += 1
             return ops, from_replay_setpos
 
-        x = run("X", [f"C 1 {T} 0 86400 86400 86400", f"relay {T + 1} 101 -", "conn A", f"replay {T + 1000000} A"])
+        durs = " ".join(["86400"] * 6)
+        x = run("X", [f"C 1 {T} 0 {durs}", f"relay {T + 1} 101 -", "conn A", f"replay {T + 1000000} A"])
         x_items = replay_out(x)
         sh, n_setpos = shuttle(x_items)
-        ybase = [f"C 1 {T} 1 86400 86400 86400", f"relay {T + 500000} 201 -", f"relay {T + 700000} 202 -"]
+        ybase = [f"C 1 {T} 1 {durs}", f"relay {T + 500000} 201 -", f"relay {T + 700000} 202 -"]
         logged = {f"M201@{T + 500000}", f"M202@{T + 700000}"}
         # S0: Y's SyncClient reaches ReplayLog before X's replayed messages are handled; S1: after (both happen in production)
         y0 = run("Y0", ybase + ["conn A", f"replay {T + 1000100} A"] + sh)
